@@ -36,6 +36,8 @@ specification yields exactly the observed responses).
   operations on a key go to one shard — C03's refinement).
 * `per_key_linearizable_partial` — hence every key's sub-history is linearizable w.r.t. one
   executor started on the empty store.  Hypotheses: locality of the executor, consistent routing.
+* `batched_items_linearizable` — the batched path (`Step.invokeBatch`; every item of a
+  `fast_batch_get/set_pipeline` call is one single-key operation inside the call's interval).
 * `lin_check_sound` — the executable per-key checker run on observed histories accepts only
   per-key linearizable histories.
 * `C02_statement_repaired` is the statement about the code as it is since fix 872671c.
@@ -199,6 +201,19 @@ theorem single_key_refine (hL : E.Local) (R : Routes) (fixed : Bool) (hv : R.Val
       (by intro hp; simp [primaryKey] at hp)
   | fastGet k => exact refine_keyed hL h (.fastGet k) rfl (R.bytes k) (hv k).2 (by simp [keyList])
   | fastSet k v => exact refine_keyed hL h (.fastSet k v) rfl (R.bytes k) (hv k).2 (by simp [keyList])
+  | batchGet ks =>
+    -- one item of a batched GET: grouped by `hash_key_bytes`, asked at its own shard
+    obtain ⟨x1, x2, x3⟩ := C03.shards_refine_single hL R fixed hv hN hc h (.batchGet ks) rfl
+    refine ⟨x1, x2, ?_⟩
+    have : C03.replyEqv (.many (gatherN E R.N R.bytes st .batchGet ks))
+        (.many (ks.map (getDirect E (abs st)))) = true := x3
+    have e : gatherN E R.N R.bytes st .batchGet ks = ks.map (getDirect E (abs st)) := by
+      simpa [C03.replyEqv] using this
+    show Reply.many (gatherN E R.N R.bytes st .batchGet ks) = Reply.many (ks.map (getDirect E (abs st)))
+    rw [e]
+  | batchSet kvs =>
+    obtain ⟨x1, x2, _⟩ := C03.shards_refine_single hL R fixed hv hN hc h (.batchSet kvs) rfl
+    exact ⟨x1, x2, rfl⟩
   | _ => simp [SingleKey] at hs
 
 /-- **linearizable w.r.t. ONE store**: clients drive the sharding layer (`execN`: the request goes
@@ -244,6 +259,21 @@ theorem per_key_linearizable_repaired (hL : E.Local) (R : Routes) (hv : R.Valid)
     (hsk : ∀ id req, (.inv id req) ∈ s.log → SingleKey req = true) :
     PerKeyLinearizable E.exec cmdKey ([] : Store S.Val) (history s.log) :=
   per_key_linearizable_partial hL R true hv hN (consistent_fixed R) hr hsk
+
+/-- **the batched path**: executions in which clients issue batched calls (`Step.invokeBatch`: the
+    items of `fast_batch_get_pipeline` / `fast_batch_set_pipeline` posted together, each routed by
+    `hash_key_bytes` to its own shard) next to generic / fast / pooled requests on the same keys —
+    every key's sub-history, with every batched ITEM as one single-key operation, is linearizable.
+    (It is `per_key_linearizable_repaired`: `Reach` quantifies over `invokeBatch` steps too and
+    `SingleKey` admits the items `.batchGet [k]`, `.batchSet [(k, v)]`.) -/
+theorem batched_items_linearizable (hL : E.Local) (R : Routes) (hv : R.Valid) (hN : 0 < R.N)
+    {pool : Nat} {s : Sys (Shards S.Val) (Cmd S) Reply}
+    (hr : Reach (execN E R true) (cmdShard R true) (Shards.init S.Val R.N) pool s)
+    (hsk : ∀ id req, (.inv id req) ∈ s.log → SingleKey req = true) :
+    ValidLog E.exec ([] : Store S.Val) s.log ∧
+    PerKeyLinearizable E.exec cmdKey ([] : Store S.Val) (history s.log) :=
+  ⟨linearizable_single_store hL R true hv hN (consistent_fixed R) hr hsk,
+   per_key_linearizable_repaired hL R hv hN hr hsk⟩
 
 /-- **C02, full strength** (kept visible): the same without any hypothesis on the routing, for
     the routing with the given flag -/
@@ -296,6 +326,32 @@ example : ∃ s : Sys (Shards SVal) (Cmd Str.sig) Reply,
   · injection e with _ e2; subst e2; rfl
   · cases e
   · cases e
+
+/-- a batched SET of keys 1 and 3 (shards 0 and 1 of `C03.exRoutes`: a batch per shard) by one
+    caller, a fast SET of key 3 by another client queued behind it, then a batched GET of key 3:
+    it answers the newer value -/
+theorem batch_reach : ∃ s, Reach (execN Str.exec C03.exRoutes true)
+      (cmdShard C03.exRoutes true) (Shards.init SVal 2) 0 s ∧
+    history s.log = [.inv 0 (.batchSet [(1, [111])]), .inv 1 (.batchSet [(3, [111])]),
+      .inv 2 (.fastSet 3 [110]), .res 0 (.many [.ok]), .res 1 (.many [.ok]), .res 2 (.one .ok),
+      .inv 3 (.batchGet [3]), .res 3 (.many [.bulk [110]])] := by
+  have r0 : Reach (execN Str.exec C03.exRoutes true) (cmdShard C03.exRoutes true)
+      (Shards.init SVal 2) 0 (Sys.init (Shards.init SVal 2) 0) := Reach.init
+  have r1 := Reach.step r0 (Step.invokeBatch _ [(10, .batchSet [(1, [111])]), (11, .batchSet [(3, [111])])]
+    (by intro p _; rfl) (by decide))
+  have r2 := Reach.step r1 (Step.invokeFresh _ 0 (.fastSet 3 [110]) rfl)
+  have r3 := Reach.step r2 (Step.exec _ 0 ⟨0, 0, .batchSet [(1, [111])]⟩ [] rfl)
+  have r4 := Reach.step r3 (Step.exec _ 1 ⟨1, 1, .batchSet [(3, [111])]⟩ [⟨2, 2, .fastSet 3 [110]⟩] rfl)
+  have r5 := Reach.step r4 (Step.exec _ 1 ⟨2, 2, .fastSet 3 [110]⟩ [] rfl)
+  have r6 := Reach.step r5 (Step.retDrop _ 10 0 (.batchSet [(1, [111])]) 0 _ rfl rfl)
+  have r7 := Reach.step r6 (Step.retDrop _ 11 1 (.batchSet [(3, [111])]) 1 _ rfl rfl)
+  have r8 := Reach.step r7 (Step.retDrop _ 0 2 (.fastSet 3 [110]) 2 _ rfl rfl)
+  have r9 := Reach.step r8 (Step.invokeBatch _ [(10, .batchGet [3])]
+    (by intro p hp; have : p = (10, .batchGet [3]) := by simpa using hp
+        subst this; rfl) (by decide))
+  have r10 := Reach.step r9 (Step.exec _ 1 ⟨3, 3, .batchGet [3]⟩ [] rfl)
+  have r11 := Reach.step r10 (Step.retDrop _ 10 3 (.batchGet [3]) 3 _ rfl rfl)
+  exact ⟨_, r11, rfl⟩
 
 end nonvacuous
 
